@@ -1,142 +1,386 @@
 import Taskpool.Model.Queue
-/-! C20 core: every taken item is marked processed exactly once (view-based proof). -/
+/-! C20, part 1: the invariant of the accounting core `K` and its preservation by every core operation.
+
+`Inv k` = the counting equations (`V.ok`, proved through the view `K.view` + `omega`), the per-consumer mark
+discipline (`CoreOK`) and the `join()` discipline (`JOK`). -/
 namespace Taskpool.QueueM
 
-def isInBlock (c : Consumer) : Bool := match c.phase with | .inBlock _ => true | _ => false
+/-- every `task_done()` a consumer makes belongs to the one exit of its block -/
+def CoreOK (x : Core) : Prop := x.marks = if x.tookDone then 1 else 0
 
-/-- the accounting view of a queue state -/
+/-- the accounting view of a state -/
 structure V where
   items : Nat
   unf   : Nat
   blk   : Nat
+  dn    : Nat
   puts  : Nat
   exits : Nat
-  ve    : Bool
+  td    : Nat
+  ve    : Nat
 deriving DecidableEq, Repr
 
-def view (q : Q) : V :=
-  { items := q.items.length, unf := q.unfinished, blk := q.consumers.countP isInBlock, puts := q.puts,
-    exits := q.exits, ve := q.log.contains .valueError }
+def K.view (k : K) : V :=
+  { items := k.items.length, unf := k.unfinished, blk := k.cores.countP Core.inBlock, dn := k.cores.countP Core.tookDone,
+    puts := k.puts, exits := k.exits, td := k.tdCalls, ve := k.valueErrors }
 
-def V.ok (v : V) : Prop := v.unf = v.items + v.blk ∧ v.puts = v.exits + v.unf ∧ v.ve = false
+def V.ok (v : V) : Prop :=
+  v.unf = v.items + v.blk ∧ v.puts = v.exits + v.unf ∧ v.ve = 0 ∧ v.td = v.exits ∧ v.exits = v.dn
 
-theorem countP_modify_same (cs : List Consumer) (c : Nat) (f : Consumer → Consumer)
-    (h : ∀ x, isInBlock (f x) = isInBlock x) : (cs.modify c f).countP isInBlock = cs.countP isInBlock := by
-  induction cs generalizing c with
+/-! ### list lemmas -/
+
+theorem countP_modify_at {α} (p : α → Bool) (l : List α) (c : Nat) (a : α) (f : α → α) (h : l[c]? = some a) :
+    (l.modify c f).countP p + (if p a then 1 else 0) = l.countP p + (if p (f a) then 1 else 0) := by
+  induction l generalizing c with
+  | nil => simp at h
+  | cons b bs ih =>
+    cases c with
+    | zero =>
+      simp at h; subst h
+      simp only [List.modify_zero_cons, List.countP_cons]; omega
+    | succ n =>
+      simp at h
+      have := ih n h
+      simp only [List.modify_succ_cons, List.countP_cons] at this ⊢; omega
+
+theorem countP_modify_same {α} (p : α → Bool) (l : List α) (c : Nat) (f : α → α) (h : ∀ x, p (f x) = p x) :
+    (l.modify c f).countP p = l.countP p := by
+  induction l generalizing c with
   | nil => simp
   | cons a as ih =>
     cases c with
     | zero => simp [List.countP_cons, h]
     | succ n => simp only [List.modify_succ_cons, List.countP_cons, ih n]
 
-theorem countP_modify_at (cs : List Consumer) (c : Nat) (k : Consumer) (f : Consumer → Consumer) (hk : cs[c]? = some k) :
-    (cs.modify c f).countP isInBlock + (if isInBlock k then 1 else 0)
-      = cs.countP isInBlock + (if isInBlock (f k) then 1 else 0) := by
-  induction cs generalizing c with
-  | nil => simp at hk
+theorem mem_modify {α} (l : List α) (c : Nat) (f : α → α) (x : α) (hx : x ∈ l.modify c f) :
+    x ∈ l ∨ ∃ y, l[c]? = some y ∧ x = f y := by
+  induction l generalizing c with
+  | nil => simp at hx
   | cons a as ih =>
     cases c with
     | zero =>
-      simp at hk; subst hk
-      simp only [List.modify_zero_cons, List.countP_cons]; omega
+      simp only [List.modify_zero_cons, List.mem_cons] at hx
+      rcases hx with h | h
+      · right; exact ⟨a, by simp, h⟩
+      · left; simp [h]
     | succ n =>
-      simp at hk
-      have := ih n hk
-      simp only [List.modify_succ_cons, List.countP_cons] at this ⊢; omega
+      simp only [List.modify_succ_cons, List.mem_cons] at hx
+      rcases hx with h | h
+      · left; simp [h]
+      · rcases ih n h with h' | ⟨y, hy, hxy⟩
+        · left; simp [h']
+        · right; exact ⟨y, by simpa using hy, hxy⟩
 
-namespace Q
+/-! ### the invariant -/
 
-@[simp] theorem view_modJ (q : Q) (j f) : view (q.modJ j f) = view q := rfl
-@[simp] theorem view_schedJ (q : Q) (j) : view (q.schedJ j) = view q := rfl
+/-- the `join()` discipline -/
+structure K.JOK (k : K) : Prop where
+  fin   : k.finished = true ↔ k.unfinished = 0
+  wait  : ∀ (j : Nat) (x : Joiner), k.joiners[j]? = some x → x.phase = .waiting → x.fut = .pending →
+            j ∈ k.evWaiters ∧ x.sched = false ∧ 0 < k.unfinished
+  woken : ∀ (j : Nat) (x : Joiner), k.joiners[j]? = some x → x.phase = .waiting → x.fut ≠ .pending →
+            x.fut = .woken ∧ x.sched = true
+  fresh : ∀ (j : Nat) (x : Joiner), k.joiners[j]? = some x → x.phase = .notStarted →
+            x.fut = .pending ∧ x.sched = true ∧ j ∉ k.evWaiters
+  bound : ∀ j ∈ k.evWaiters, j < k.joiners.length
 
-theorem view_modC_same (q : Q) (c : Nat) (f : Consumer → Consumer) (h : ∀ x, isInBlock (f x) = isInBlock x) :
-    view (q.modC c f) = view q := by
-  simp [view, modC, countP_modify_same _ _ _ h]
+structure K.Inv (k : K) : Prop where
+  cnt  : k.view.ok
+  core : ∀ x ∈ k.cores, CoreOK x
+  jn   : k.JOK
 
-@[simp] theorem view_schedC (q : Q) (c) : view (q.schedC c) = view q := by
-  simp [view, schedC, modC, countP_modify_same _ _ _ (fun x => (rfl : isInBlock { x with sched := true } = isInBlock x))]
+theorem K.inv_init : K.init.Inv := by
+  refine ⟨by simp [K.init, K.view, V.ok], by simp [K.init], ?_⟩
+  constructor <;> simp [K.init]
 
-theorem view_logEv (q : Q) (e : Ev) (he : e ≠ .valueError) : view (q.logEv e) = view q := by
-  simp only [view, logEv, V.mk.injEq, true_and]
-  simp [List.contains_append]
-  intro h; exact absurd h.symm he
+/-- one core operation, with the guard under which the shell performs it -/
+inductive KStep : K → K → Prop
+  | refl (k : K) : KStep k k
+  | put (k : K) (x : Nat) : KStep k (k.put x)
+  | spawn (k : K) : KStep k k.spawn
+  | join (k : K) : KStep k k.join
+  | wait (k : K) (c : Nat) (x : Core) : k.cores[c]? = some x → preBlock x.phase = true → KStep k (k.wait c)
+  | take (k : K) (c : Nat) (x : Core) : k.cores[c]? = some x → preBlock x.phase = true → KStep k (k.take c)
+  | abort (k : K) (c : Nat) (x : Core) : k.cores[c]? = some x → preBlock x.phase = true → KStep k (k.abort c)
+  | exit (k : K) (c : Nat) (x : Core) (e : Exit) : k.cores[c]? = some x → isInBlock x.phase = true → KStep k (k.exit c e)
+  | stepJ (k : K) (j : Nat) : KStep k (k.stepJoiner j)
 
-theorem view_setFinished (q : Q) : view q.setFinished = view q := by
-  unfold setFinished
-  have : ∀ (ws : List Nat) (qq : Q),
-      view (ws.foldl (fun q j => (q.modJ j fun x => { x with fut := .woken }).schedJ j) qq) = view qq := by
-    intro ws
-    induction ws with
-    | nil => intro qq; rfl
-    | cons w ws ih => intro qq; simp only [List.foldl_cons]; rw [ih]; simp
-  rw [this]; rfl
+/-! ### counting and marks -/
 
-theorem view_wakeGetter (q : Q) : view q.wakeGetter = view q := by
-  unfold wakeGetter
+theorem cores_setPhase_pre (k : K) (c : Nat) (x : Core) (p : CPhase) (h : k.cores[c]? = some x)
+    (hx : preBlock x.phase = true) (hp : tookDone p = false) :
+    (k.setPhase c p).view = { k.view with blk := k.view.blk + (if isInBlock p then 1 else 0) } := by
+  have h1 := countP_modify_at Core.inBlock k.cores c x (fun y => { y with phase := p }) h
+  have h2 := countP_modify_at Core.tookDone k.cores c x (fun y => { y with phase := p }) h
+  have a : x.inBlock = false := by cases x with | mk ph m => cases ph <;> simp_all [Core.inBlock, isInBlock, preBlock]
+  have b : x.tookDone = false := by cases x with | mk ph m => cases ph <;> simp_all [Core.tookDone, tookDone, preBlock]
+  simp only [Core.inBlock, Core.tookDone] at h1 h2 a b
+  simp only [a, b, hp, Bool.false_eq_true, if_false, Nat.add_zero] at h1 h2
+  simp only [K.view, K.setPhase, V.mk.injEq, true_and, and_true]
+  exact ⟨h1, h2⟩
+
+theorem coreOK_setPhase (k : K) (c : Nat) (p : CPhase) (hp : tookDone p = false)
+    (hc : ∀ y ∈ k.cores, CoreOK y) (hpre : ∀ x, k.cores[c]? = some x → x.tookDone = false) :
+    ∀ y ∈ (k.setPhase c p).cores, CoreOK y := by
+  intro y hy
+  rcases mem_modify _ _ _ _ hy with h | ⟨z, hz, rfl⟩
+  · exact hc y h
+  · have hz' := hc z (List.mem_of_getElem? hz)
+    have := hpre z hz
+    simp_all [CoreOK, Core.tookDone]
+
+theorem pre_not_tookDone (x : Core) (h : preBlock x.phase = true) : x.tookDone = false := by
+  cases x with | mk ph m => cases ph <;> simp_all [Core.tookDone, tookDone, preBlock]
+
+theorem inBlock_not_tookDone (x : Core) (h : isInBlock x.phase = true) : x.tookDone = false := by
+  cases x with | mk ph m => cases ph <;> simp_all [Core.tookDone, tookDone, isInBlock]
+
+/-- phase changes of a consumer that holds no item keep the whole invariant, given the counting part -/
+theorem inv_setPhase_pre (k : K) (c : Nat) (x : Core) (p : CPhase) (h : k.cores[c]? = some x)
+    (hx : preBlock x.phase = true) (hp : tookDone p = false) (hb : isInBlock p = false) (hi : k.Inv) : (k.setPhase c p).Inv := by
+  refine ⟨?_, coreOK_setPhase k c p hp hi.core (fun z hz => ?_), ?_⟩
+  · rw [cores_setPhase_pre k c x p h hx hp]; simpa [hb] using hi.cnt
+  · rw [h] at hz; cases hz; exact pre_not_tookDone x hx
+  · exact ⟨hi.jn.fin, hi.jn.wait, hi.jn.woken, hi.jn.fresh, hi.jn.bound⟩
+
+/-! ### preservation, operation by operation -/
+
+theorem K.inv_put (k : K) (x : Nat) (hi : k.Inv) : (k.put x).Inv := by
+  obtain ⟨⟨a, b, c, d, e⟩, hc, hj⟩ := hi
+  refine ⟨?_, hc, ?_⟩
+  · simp only [K.view, K.put, V.ok, List.length_append, List.length_singleton] at a b c d e ⊢
+    omega
+  · refine ⟨by simp [K.put], ?_, hj.woken, hj.fresh, hj.bound⟩
+    intro j y h1 h2 h3
+    have := hj.wait j y h1 h2 h3
+    exact ⟨this.1, this.2.1, by simp [K.put]⟩
+
+theorem K.inv_spawn (k : K) (hi : k.Inv) : k.spawn.Inv := by
+  obtain ⟨hv, hc, hj⟩ := hi
+  refine ⟨?_, ?_, ⟨hj.fin, hj.wait, hj.woken, hj.fresh, hj.bound⟩⟩
+  · simpa [K.view, K.spawn, V.ok, List.countP_append, Core.inBlock, Core.tookDone, isInBlock, tookDone] using hv
+  · intro y hy
+    simp only [K.spawn, List.mem_append, List.mem_singleton] at hy
+    rcases hy with h | rfl
+    · exact hc y h
+    · simp [CoreOK, Core.tookDone, tookDone]
+
+theorem K.inv_join (k : K) (hi : k.Inv) : k.join.Inv := by
+  obtain ⟨hv, hc, hj⟩ := hi
+  refine ⟨hv, hc, ?_⟩
+  have hb := hj.bound
+  constructor
+  · exact hj.fin
+  · intro j y h; have := hj.wait j y; simp only [K.join] at h ⊢; grind
+  · intro j y h; have := hj.woken j y; simp only [K.join] at h ⊢; grind
+  · intro j y h; have := hj.fresh j y; have := hb j; simp only [K.join] at h ⊢; grind
+  · intro j h; have := hb j h; simp only [K.join, List.length_append] at h ⊢; omega
+
+theorem K.inv_wait (k : K) (c : Nat) (x : Core) (h : k.cores[c]? = some x) (hx : preBlock x.phase = true) (hi : k.Inv) :
+    (k.wait c).Inv := inv_setPhase_pre k c x _ h hx rfl rfl hi
+
+theorem K.inv_abort (k : K) (c : Nat) (x : Core) (h : k.cores[c]? = some x) (hx : preBlock x.phase = true) (hi : k.Inv) :
+    (k.abort c).Inv := inv_setPhase_pre k c x _ h hx rfl rfl hi
+
+theorem K.inv_take (k : K) (c : Nat) (x : Core) (h : k.cores[c]? = some x) (hx : preBlock x.phase = true) (hi : k.Inv) :
+    (k.take c).Inv := by
+  unfold K.take
+  split
+  · exact hi
+  · rename_i it rest hit
+    obtain ⟨⟨a, b, c', d, e⟩, hc, hj⟩ := hi
+    refine ⟨?_, coreOK_setPhase _ c _ rfl hc (fun z hz => ?_), ⟨hj.fin, hj.wait, hj.woken, hj.fresh, hj.bound⟩⟩
+    · rw [cores_setPhase_pre ({ k with items := rest } : K) c x (.inBlock it) h hx rfl]
+      simp only [K.view, V.ok, hit, List.length_cons, isInBlock, if_true] at a b c' d e ⊢
+      omega
+    · have hz' : k.cores[c]? = some z := hz
+      rw [h] at hz'; cases hz'; exact pre_not_tookDone x hx
+
+/-- `_finished.set()` touches only the joiners and the event -/
+theorem K.JOK_taskDone (k : K) (hpos : 0 < k.unfinished) (hj : k.JOK) : k.taskDone.JOK := by
+  have hne : ¬ k.unfinished = 0 := by omega
+  unfold K.taskDone K.taskDoneOk
+  simp only [hne, if_false]
+  split
+  · rename_i h0
+    constructor
+    · simp [K.setFinished, h0]
+    · intro j y h1 h2 h3
+      simp only [K.setFinished, List.getElem?_mapIdx] at h1
+      cases hx : k.joiners[j]? with
+      | none => simp [hx] at h1
+      | some x =>
+        simp only [hx, Option.map_some, Option.some.injEq] at h1
+        have hw := hj.wait j x hx
+        simp only [K.wakes] at h1
+        grind
+    · intro j y h1 h2 h3
+      simp only [K.setFinished, List.getElem?_mapIdx] at h1
+      cases hx : k.joiners[j]? with
+      | none => simp [hx] at h1
+      | some x =>
+        simp only [hx, Option.map_some, Option.some.injEq] at h1
+        have hw := hj.woken j x hx
+        grind
+    · intro j y h1 h2
+      simp only [K.setFinished, List.getElem?_mapIdx] at h1
+      cases hx : k.joiners[j]? with
+      | none => simp [hx] at h1
+      | some x =>
+        simp only [hx, Option.map_some, Option.some.injEq] at h1
+        have hw := hj.fresh j x hx
+        simp only [K.wakes] at h1
+        simp only [K.setFinished]
+        grind
+    · intro j h; have := hj.bound j h; simpa [K.setFinished] using this
+  · rename_i h0
+    have hf := hj.fin
+    refine ⟨?_, ?_, hj.woken, hj.fresh, hj.bound⟩
+    · simp only at h0 ⊢
+      constructor
+      · intro h; have := hf.1 h; omega
+      · intro h; omega
+    · intro j y h1 h2 h3
+      have := hj.wait j y h1 h2 h3
+      simp only at h0 ⊢
+      exact ⟨this.1, this.2.1, by omega⟩
+
+theorem K.cores_taskDone (k : K) : k.taskDone.cores = k.cores := by
+  unfold K.taskDone K.taskDoneOk K.setFinished
   simp only
   split
   · rfl
-  · rw [view_schedC, view_modC_same _ _ _ (fun x => by simp [isInBlock])]; rfl
+  · split <;> rfl
 
-theorem view_taskDoneOk (q : Q) : view q.taskDoneOk = { view q with unf := q.unfinished - 1 } := by
-  unfold taskDoneOk
-  simp only
+theorem K.view_taskDone (k : K) (hpos : 0 < k.unfinished) :
+    k.taskDone.view = { k.view with unf := k.unfinished - 1, td := k.tdCalls + 1 } := by
+  have hne : ¬ k.unfinished = 0 := by omega
+  unfold K.taskDone K.taskDoneOk K.setFinished
+  simp only [hne, if_false]
+  split <;> rfl
+
+theorem K.cores_exit (k : K) (c : Nat) (e : Exit) :
+    (k.exit c e).cores = k.cores.modify c fun y => { phase := .done e true, marks := y.marks + 1 } := by
+  simp only [K.exit, K.setPhase, K.addMark, K.cores_taskDone, List.modify_modify_eq]
+  rfl
+
+theorem K.view_exit (k : K) (c : Nat) (e : Exit) (hpos : 0 < k.unfinished) :
+    (k.exit c e).view = { k.view with unf := k.unfinished - 1, td := k.tdCalls + 1, exits := k.exits + 1,
+                                      blk := (k.exit c e).cores.countP Core.inBlock,
+                                      dn := (k.exit c e).cores.countP Core.tookDone } := by
+  have hv := K.view_taskDone ({ k with exits := k.exits + 1 } : K) hpos
+  simp only [K.view, V.mk.injEq] at hv
+  obtain ⟨v1, v2, v3, v4, v5, v6, v7, v8⟩ := hv
+  simp only [K.view, V.mk.injEq, K.exit, K.setPhase, K.addMark]
+  exact ⟨v1, v2, trivial, trivial, v5, v6, v7, v8⟩
+
+theorem K.inv_exit (k : K) (c : Nat) (x : Core) (e : Exit) (h : k.cores[c]? = some x) (hx : isInBlock x.phase = true)
+    (hi : k.Inv) : (k.exit c e).Inv := by
+  obtain ⟨⟨a, b, c', d, e'⟩, hc, hj⟩ := hi
+  have h1 := countP_modify_at Core.inBlock k.cores c x (fun y => { phase := .done e true, marks := y.marks + 1 }) h
+  have h2 := countP_modify_at Core.tookDone k.cores c x (fun y => { phase := .done e true, marks := y.marks + 1 }) h
+  have hnt := inBlock_not_tookDone x hx
+  have hib : x.inBlock = true := hx
+  have e1 : Core.inBlock { phase := .done e true, marks := x.marks + 1 } = false := rfl
+  have e2 : Core.tookDone { phase := .done e true, marks := x.marks + 1 } = true := rfl
+  simp only [hnt, hib, e1, e2, if_true, Bool.false_eq_true, if_false, Nat.add_zero] at h1 h2
+  simp only [K.view] at a b c' d e'
+  have hpos : 0 < k.unfinished := by omega
+  refine ⟨?_, ?_, ?_⟩
+  · rw [K.view_exit k c e hpos, K.cores_exit]
+    simp only [K.view, V.ok]
+    omega
+  · intro y hy
+    rw [K.cores_exit] at hy
+    rcases mem_modify _ _ _ _ hy with h' | ⟨z, hz, rfl⟩
+    · exact hc y h'
+    · rw [h] at hz; cases hz
+      have := hc x (List.mem_of_getElem? h)
+      simp only [CoreOK, hnt, Bool.false_eq_true, if_false] at this
+      simp [CoreOK, Core.tookDone, tookDone, this]
+  · have := K.JOK_taskDone ({ k with exits := k.exits + 1 } : K) hpos ⟨hj.fin, hj.wait, hj.woken, hj.fresh, hj.bound⟩
+    exact ⟨this.fin, this.wait, this.woken, this.fresh, this.bound⟩
+theorem K.view_stepJoiner (k : K) (j : Nat) : (k.stepJoiner j).view = k.view ∧ (k.stepJoiner j).cores = k.cores := by
+  unfold K.stepJoiner K.joinStart K.joinWake K.modJ
+  repeat' (first | split | exact ⟨rfl, rfl⟩)
+
+theorem K.JOK_stepJoiner (k : K) (j : Nat) (hj : k.JOK) : (k.stepJoiner j).JOK := by
+  unfold K.stepJoiner
   split
-  · rw [view_setFinished, view_logEv _ _ (by simp)]; rfl
-  · rw [view_logEv _ _ (by simp)]; rfl
-
-/-- `task_done()` with a positive counter: it drops by one and no `ValueError` appears -/
-theorem view_taskDone_pos (q : Q) (h : 0 < q.unfinished) : view q.taskDone = { view q with unf := q.unfinished - 1 } := by
-  unfold taskDone
-  have : ¬ q.unfinished = 0 := by omega
-  simp only [this, if_false]
-  exact view_taskDoneOk q
-
-theorem ok_put (q : Q) (x : Nat) (h : (view q).ok) : (view (q.put x)).ok := by
-  unfold put
-  rw [view_wakeGetter]
-  obtain ⟨a, b, c⟩ := h
-  simp only [view] at a b c ⊢
-  refine ⟨by simp; omega, by simp; omega, c⟩
-
-/-- leaving the block of a consumer that is in its block keeps the books balanced -/
-theorem ok_exitBlock (q : Q) (c : Nat) (k : Consumer) (e : Exit) (h : (view q).ok) (hk : q.consumers[c]? = some k)
-    (hb : isInBlock k = true) : (view (q.exitBlock c e)).ok := by
-  obtain ⟨a, b, cve⟩ := h
-  have hcnt := countP_modify_at q.consumers c k (fun x => { x with phase := .done e, suspended := false }) hk
-  have h2 : isInBlock ({ k with phase := .done e, suspended := false } : Consumer) = false := rfl
-  rw [hb, h2] at hcnt
-  simp only [if_true, Bool.false_eq_true, if_false, Nat.add_zero] at hcnt
-  simp only [view] at a b cve
-  have hpos : 0 < q.unfinished := by omega
-  unfold exitBlock
-  -- consumers are untouched until the final `modC`
-  have hcons : ((({ q with exits := q.exits + 1 } : Q).logEv (.exited c)).taskDone).consumers = q.consumers := by
-    unfold taskDone taskDoneOk setFinished
-    have fold : ∀ (ws : List Nat) (qq : Q),
-        (ws.foldl (fun q j => (q.modJ j fun x => { x with fut := .woken }).schedJ j) qq).consumers = qq.consumers := by
-      intro ws
-      induction ws with
-      | nil => intro qq; rfl
-      | cons w ws ih => intro qq; simp only [List.foldl_cons]; rw [ih]; rfl
+  · exact hj
+  · rename_i x hx
     split
-    · rfl
-    · simp only
+    · exact hj
+    · rename_i hs
+      have hw := hj.wait; have hwk := hj.woken; have hf := hj.fresh; have hb := hj.bound; have hfin := hj.fin
+      have hlt : j < k.joiners.length := by
+        have := List.getElem?_eq_some_iff.1 hx; exact this.1
       split
-      · rw [fold]; rfl
-      · rfl
-  have hv := view_taskDone_pos (({ q with exits := q.exits + 1 } : Q).logEv (.exited c)) hpos
-  rw [view_logEv _ _ (by simp)] at hv
-  have hv' : view ((((({ q with exits := q.exits + 1 } : Q).logEv (.exited c)).taskDone).modC c
-      fun x => { x with phase := .done e, suspended := false })) =
-      { (view (({ q with exits := q.exits + 1 } : Q).logEv (.exited c)).taskDone) with
-        blk := (q.consumers.modify c fun x => { x with phase := .done e, suspended := false }).countP isInBlock } := by
-    simp only [view, modC, hcons]
-  rw [hv', hv]
-  simp only [view, V.ok]
-  refine ⟨?_, ?_, cve⟩
-  · simp only [logEv]; omega
-  · simp only [logEv]; omega
+      · -- notStarted
+        rename_i hp
+        unfold K.joinStart
+        split
+        · rename_i hcond
+          constructor
+          · exact hfin
+          · intro i y h; have := hw i y; have := hf j x hx hp
+            simp only [K.modJ, List.getElem?_modify] at h ⊢; grind
+          · intro i y h; have := hwk i y; have := hf j x hx hp
+            simp only [K.modJ, List.getElem?_modify] at h ⊢; grind
+          · intro i y h; have := hf i y
+            simp only [K.modJ, List.getElem?_modify] at h ⊢; grind
+          · intro i h; have := hb i
+            simp only [K.modJ, List.length_modify, List.mem_append, List.mem_singleton] at h ⊢; grind
+        · constructor
+          · exact hfin
+          · intro i y h; have := hw i y
+            simp only [K.modJ, List.getElem?_modify] at h ⊢; grind
+          · intro i y h; have := hwk i y
+            simp only [K.modJ, List.getElem?_modify] at h ⊢; grind
+          · intro i y h; have := hf i y
+            simp only [K.modJ, List.getElem?_modify] at h ⊢; grind
+          · intro i h; have := hb i
+            simp only [K.modJ, List.length_modify] at h ⊢; grind
+      · -- waiting
+        rename_i hp
+        unfold K.joinWake
+        constructor
+        · exact hfin
+        · intro i y h; have := hw i y; have := hw j x hx hp
+          simp only [K.modJ, List.getElem?_modify] at h ⊢; grind
+        · intro i y h; have := hwk i y
+          simp only [K.modJ, List.getElem?_modify] at h ⊢; grind
+        · intro i y h; have := hf i y
+          simp only [K.modJ, List.getElem?_modify] at h ⊢; grind [List.mem_of_mem_erase]
+        · intro i h; have := hb i (List.mem_of_mem_erase h)
+          simp only [K.modJ, List.length_modify] at h ⊢; grind
+      · constructor
+        · exact hfin
+        · intro i y h; have := hw i y
+          simp only [K.modJ, List.getElem?_modify] at h ⊢; grind
+        · intro i y h; have := hwk i y
+          simp only [K.modJ, List.getElem?_modify] at h ⊢; grind
+        · intro i y h; have := hf i y
+          simp only [K.modJ, List.getElem?_modify] at h ⊢; grind
+        · intro i h; have := hb i
+          simp only [K.modJ, List.length_modify] at h ⊢; grind
 
-end Q
+theorem K.inv_stepJoiner (k : K) (j : Nat) (hi : k.Inv) : (k.stepJoiner j).Inv := by
+  obtain ⟨hv, hc, hj⟩ := hi
+  have := K.view_stepJoiner k j
+  exact ⟨this.1 ▸ hv, this.2 ▸ hc, K.JOK_stepJoiner k j hj⟩
+
+/-- every core operation, performed under its guard, preserves the invariant -/
+theorem KStep.inv {k k' : K} (h : KStep k k') (hi : k.Inv) : k'.Inv := by
+  cases h with
+  | refl => exact hi
+  | put x => exact K.inv_put k x hi
+  | spawn => exact K.inv_spawn k hi
+  | join => exact K.inv_join k hi
+  | wait c x h hx => exact K.inv_wait k c x h hx hi
+  | take c x h hx => exact K.inv_take k c x h hx hi
+  | abort c x h hx => exact K.inv_abort k c x h hx hi
+  | exit c x e h hx => exact K.inv_exit k c x e h hx hi
+  | stepJ j => exact K.inv_stepJoiner k j hi
+
 end Taskpool.QueueM
